@@ -5,7 +5,7 @@ from vlib.runner import Failure
 
 PID = "C04"
 LEAN_MODULE = "NunVerif.Props.C04Snapshot"
-THEOREMS = ["Nun.C04_wire_formats", "Nun.C04_replicate_line_is_generated", "Nun.C04_replicate_remove_line_is_generated", "Nun.C04_replicate_increment_line_is_generated", "Nun.C04_resolve_line_is_generated", "Nun.C04_envelope_is_generated", "Nun.parse_createDbLine", "Nun.replicateRequestCore_createDb", "Nun.parse_resolveMsg", "Nun.replicateRequestCore_resolve", "Nun.parse_snapshotLine", "Nun.splitAll_join", "Nun.replicateRequestCore_snapshot", "Nun.processObj_snapshot_queues", "Nun.C04_replicas_agree_on_writes", "Nun.setValue_agree", "Nun.C04_finding_remove_depends_on_persistence", "Nun.C04_same_messages_same_state", "Nun.C04_fanout_reaches_every_secondary", "Nun.C14_secondary_never_fans_out", "Nun.C14_fanout_bounded",
+THEOREMS = ["Nun.C04_wire_formats", "Nun.C04_replicate_line_is_generated", "Nun.C04_replicate_remove_line_is_generated", "Nun.C04_replicate_increment_line_is_generated", "Nun.C04_resolve_line_is_generated", "Nun.C04_envelope_is_generated", "Nun.C04_wire_arm_formats", "Nun.C04_create_db_line_is_generated", "Nun.C04_snapshot_line_is_generated", "Nun.parse_createDbLine", "Nun.replicateRequestCore_createDb", "Nun.parse_resolveMsg", "Nun.replicateRequestCore_resolve", "Nun.parse_snapshotLine", "Nun.splitAll_join", "Nun.replicateRequestCore_snapshot", "Nun.processObj_snapshot_queues", "Nun.C04_replicas_agree_on_writes", "Nun.setValue_agree", "Nun.C04_finding_remove_depends_on_persistence", "Nun.C04_same_messages_same_state", "Nun.C04_fanout_reaches_every_secondary", "Nun.C14_secondary_never_fans_out", "Nun.C14_fanout_bounded",
             "Nun.C04_newer_writes_converge", "Nun.C04_newer_data_commands_converge", "Nun.C04_newer_data_quiescent_agreement", "Nun.good_op_nn", "Nun.applyNN_agreeS", "Nun.applyChange_nn", "Nun.primary_set_emits_nn", "Nun.secondary_applies_set_nn", "Nun.good_write_nn",
             "Nun.C04_data_commands_converge", "Nun.C04_data_quiescent_agreement", "Nun.good_op", "Nun.setValue_agreeS", "Nun.incValue_agreeS", "Nun.removeValue_agreeS",
             "Nun.primary_remove_emits", "Nun.primary_inc_emits", "Nun.secondary_applies_remove", "Nun.secondary_applies_inc", "Nun.envelope_frame",
